@@ -95,6 +95,19 @@ def run(ctx):
 
     ctx.validate_all("Trace_Files", trace, key_of, group_start="Export", max_rejections=10,
                      what_of=lambda ex, bad: "rejected by spec/Trace_Files.tla: %s (export: %s)" % (json.dumps(bad)[:300], json.dumps(ex[0])[:200] if ex else ""))
+    # ---- beyond the listed properties: Save_Function of the interpolation classes as exporters of the same file machine (note level)
+    strace = os.path.join(ctx.work, "saved.ndjson")
+    rc, o, err = vf.run_exe([exe, "saved", str(ctx.seed), ctx.tier, strace, scratch], timeout=1500)
+    if rc != 0 or any(l.startswith("VERIF-DIED") for l in err.splitlines()):
+        ctx.drift("Save_Function (no listed property): the recorder ended early: %s" % err[-300:])
+    else:
+        ok, consumed, total = ctx.validate("Trace_Files", strace)
+        if not ok:
+            sl = open(strace).read().splitlines()
+            ctx.drift("Save_Function (no listed property; spec/ExportImport.tla SavedRows/SavedOK): event %d of %d rejected: %s (after %s)" % (consumed + 1, total, sl[min(consumed, len(sl) - 1)][:200], sl[max(consumed - 1, 0)][:120]))
+        else:
+            ctx.cov["trace_events"] += total
+            ctx.cov["traces_validated_against_impl"] += total // 2
     lines = open(trace).read().splitlines()
     ctx.sample({"trace_event": json.loads(lines[0])})
     ctx.sample({"trace_event": json.loads(lines[1])})
